@@ -283,6 +283,7 @@ class Codec:
         [pic_output_flag], [colour_plane_id], [slice_pic_order_cnt_lsb]; then a 1 bit, alignment, filler and
         a final 0x80 byte, all escaped."""
         ps = self.ps
+        assert 0 <= tid <= 6, "nuh_temporal_id_plus1 is 1..7"
         w = BitWriter()
         w.u(1, 0); w.u(6, ntype); w.u(6, 0); w.u(3, tid + 1)
         w.u(1, 1 if first else 0)
@@ -548,7 +549,7 @@ def gen_structure(rng, nframes, poc_bits=8, max_minigop=8, period_len=(1, 24), i
                 for p, depth, ref in order:
                     rasl = rng.chance(2, 3)
                     nt = (RASL_R if ref else RASL_N) if rasl else (RADL_R if ref else RADL_N)
-                    frames.append(FrameSpec(nt, rng.choice([SLICE_B, SLICE_B, SLICE_P]), p, rng.choice([0, depth]), period, True))
+                    frames.append(FrameSpec(nt, rng.choice([SLICE_B, SLICE_B, SLICE_P]), p, min(rng.choice([0, depth]), 6), period, True))
                 cur_max = poc
         if kind == "bla":
             # POC of a BLA picture = its LSBs.  The LSBs are kept within [0, half) above those of the previous
@@ -944,33 +945,6 @@ def bl_stream_bytes(stream):
 
 def el_stream_bytes(stream):
     return render(split_layers(stream)[1])
-
-
-def mux_reference(bl_aus, el_frames, no_add_aud=False, eos_before_el=False, discard=False, rpu_map=None):
-    """reference interleave, as (type, bytes) sequence.
-    bl_aus: list of (first_slice_type, [Nal ...]) per BL frame (NALs of roles el/rpu are not part of a BL)
-    el_frames: list of [Nal ...] per EL frame (unwrapped EL NALs, role el, and the RPU, role rpu)
-    rpu_map: optional function applied to RPU NAL bytes (mode conversion)"""
-    out = []
-    for k, (stype, nals) in enumerate(bl_aus):
-        body = [n for n in nals if n.role not in ("el", "rpu")]
-        if not no_add_aud:
-            body = [n for n in body if n.role != "aud"]
-            out.append((AUD, canonical_aud_for(stype)))
-        tail = []
-        if not eos_before_el:
-            tail = [n for n in body if n.role in ("eos", "eob")]
-            body = [n for n in body if n.role not in ("eos", "eob")]
-        out += [(n.type, n.data) for n in body]
-        if k < len(el_frames):
-            for n in el_frames[k]:
-                if n.role == "rpu":
-                    d = rpu_map(n.data) if rpu_map else n.data
-                    out.append((UNSPEC62, d))
-                elif not discard:
-                    out.append((UNSPEC63, EL_PREFIX + n.data))
-        out += [(n.type, n.data) for n in tail]
-    return out
 
 
 def el_frames_of(stream):
